@@ -120,7 +120,9 @@ def layouts_of(template, values):
     if isinstance(template, (bytes, bytearray)):
         return [('bytes', bytes(int(v) for v in values))]
     a = np.array(values, dtype=np.asarray(template).dtype if isinstance(template, np.ndarray) else None).reshape(np.asarray(template).shape)
-    out = [('C order', np.ascontiguousarray(a)), ('nested lists', a.tolist())]
+    ro = np.ascontiguousarray(a).copy()
+    ro.setflags(write=False)
+    out = [('C order', np.ascontiguousarray(a)), ('nested lists', a.tolist()), ('read-only array', ro)]
     if a.ndim >= 2:
         out.append(('Fortran order', np.asfortranarray(a)))
         out.append(('transposed view', np.ascontiguousarray(a.T).T))
@@ -176,18 +178,19 @@ def run_struct(spec):
         try:
             if zero_obj is not None and isinstance(resolve(zero_obj, leaf['pypath']), (bool, np.bool_)):
                 leaf['values'] = [1]
+                leaf['extra_values'] = []
         except Exception:
             pass
     # ---- unpack direction
     for leaf in spec['leaves']:
-        for v in leaf['values']:
+        for v in leaf['values'] + leaf.get('extra_values', []):
             why = unsuitable(leaf, v)
             if why:
                 rows.append({'struct': spec['cpp'], 'leaf': leaf['cpp'], 'how': 'skipped', 'raw': frac(v), 'scale': leaf['scale'], 'obs': None, 'skip': why})
                 continue
             buf = blank(n + TAIL)
             buf[leaf['offset']:leaf['offset'] + leaf['size']] = encode(leaf['kind'], leaf['size'], v)
-            for p in paths:
+            for p in (paths if v in leaf['values'] else paths[:1]):
                 row = {'struct': spec['cpp'], 'leaf': leaf['cpp'], 'how': 'unpack on path ' + p, 'raw': frac(v), 'scale': leaf['scale'], 'obs': None}
                 try:
                     o, _ = ads[p].unpack(buf)
@@ -208,7 +211,7 @@ def run_struct(spec):
         except Exception:
             continue
     for leaf in spec['leaves']:
-        for v in leaf['values']:
+        for v in leaf['values'] + leaf.get('extra_values', []):
             if leaf.get('no_pack') or unsuitable(leaf, v):
                 continue
             row = {'struct': spec['cpp'], 'leaf': leaf['cpp'], 'how': 'pack', 'raw': frac(v), 'scale': [1, 1], 'obs': None}
@@ -278,6 +281,43 @@ def run_struct(spec):
                 row['note'] = repr(e)[:160]
                 if row['raw'] is None:
                     row['raw'] = [1, 1]
+            rows.append(row)
+    # ---- the variable part starts exactly at sizeof(fixed part): count / length members set to a small number, distinctive
+    #      bytes right after the struct; what unpack() took must come back from pack() byte for byte, the fixed part be n bytes
+    for leaf in spec['leaves']:
+        if not leaf.get('lengthlike'):
+            continue
+        for L in leaf['values']:
+            row = {'struct': spec['cpp'], 'leaf': leaf['cpp'], 'how': 'variable part right after sizeof, re-packed', 'raw': None, 'scale': [1, 1], 'obs': None}
+            done = False
+            for tail in (bytes((37 * i + 11) % 251 + 1 for i in range(TAIL)), bytes([1]) * TAIL):
+                tail = bytearray(tail)
+                te = leaf.get('tail_element')
+                if te:                      # the padding inside each repeated element stays zero (pack() writes zeros there)
+                    for e0 in range(0, TAIL - te['size'], te['size']):
+                        for d in te['reserved']:
+                            tail[e0 + d] = 0
+                buf = blank(n) + tail
+                buf[leaf['offset']:leaf['offset'] + leaf['size']] = encode(leaf['kind'], leaf['size'], L)
+                try:
+                    o, cons = ad.unpack(buf)
+                    pk = ad.pack(o)
+                except Exception as e:
+                    row['note'] = repr(e)[:160]
+                    continue
+                if len(pk) <= n:
+                    row['note'] = 'pack() gives %d bytes: no variable part although %s = %d' % (len(pk), leaf['cpp'], L)
+                    continue
+                row['raw'] = [int.from_bytes(bytes(buf[:len(pk)]), 'little'), 1]
+                if cons is not None and cons != len(pk):
+                    row['note'] = 'unpack() consumed %d bytes, pack() gives %d' % (cons, len(pk))
+                else:
+                    row['obs'] = [int.from_bytes(pk, 'little'), 1]
+                    row.pop('note', None)
+                done = True
+                break
+            if not done and row['raw'] is None:
+                row.update(how='skipped', skip='variable part could not be exercised: %s' % row.get('note', ''), raw=[1, 1])
             rows.append(row)
     # ---- array layouts
     for arr in spec.get('arrays', []):
